@@ -36,6 +36,11 @@ func genRequest(r *rand.Rand, ks *keyset, validShare int) *request {
 			return extraFieldRequest(r, ks)
 		case 1:
 			return paddedRequest(r, ks)
+		case 2: // the same kinds of document sent with chunked transfer encoding (no Content-Length)
+			rq := validRequest(r, ks)
+			rq.raw = "chunked"
+			rq.class = "valid/chunked"
+			return rq
 		}
 		return validRequest(r, ks)
 	case k < validShare+2:
@@ -43,7 +48,11 @@ func genRequest(r *rand.Rand, ks *keyset, validShare int) *request {
 	case k < 30:
 		return methodRequest(r, ks)
 	case k < 62:
-		return malformedRequest(r, ks)
+		rq := malformedRequest(r, ks)
+		if rq.raw == "" && len(rq.body) < 100000 && r.Intn(6) == 0 {
+			rq.raw = "chunked"
+		}
+		return rq
 	case k < 78:
 		return shapeRequest(r, ks)
 	case k < 84:
